@@ -7,6 +7,10 @@ FAMILIES = [
     # the batch path: real handleEthereumEvent -> RelayToCosmos -> tx.BroadcastTx, claims decoded from the signed tx
     {"name": "relaybatch", "family": "relaybatch", "group": "relayer", "driver": "drv_relayxlate",
      "n_quick": 6000, "n_thorough": 60000, "seeds_thorough": 3},
+    # loop level: the REAL EthereumSub.Start scans a range whose transactions carry several logs (bridge bank's and a foreign
+    # contract's with the same event signatures); receipts are served; the broadcast claims are decoded in full
+    {"name": "relaylogs", "family": "relaylogs", "group": "relayer", "driver": "drv_relayxlate",
+     "n_quick": 24, "n_thorough": 96, "seeds_thorough": 3},
 ]
 RULE = ("relayxlate: per 8 cases — 2 direct EthereumEventToEthBridgeClaim calls and 1 through real ABI packing + logToEvent "
         "(20-byte addresses incl. null, amounts 0..2^256+ and negative, chain ids / nonces around 2^63 and 2^64 and negative, "
@@ -20,6 +24,11 @@ RULE = ("relayxlate: per 8 cases — 2 direct EthereumEventToEthBridgeClaim call
         "JSON-special characters).  For every translated claim with a valid-UTF-8 symbol the content the chain derives from it "
         "(CreateOracleClaimFromEthClaim -> CreateEthClaimFromOracleString) is read back and judged against the ORIGINAL event; pairs of "
         "events differing in symbol padding / case / inner blanks (and sometimes amount, token, type) compare their content texts.  "
+        "relaylogs: 1-4 transactions in a scanned range, each with 1-3 logs — bridge-bank LogLock/LogBurn, bridge-bank logs of other "
+        "events, FOREIGN-contract logs with the same topics[0] and other data before/after the bank's log, two or three bank events in one "
+        "transaction — scanned by the real Start goroutine against the fake node (eth_getLogs honours the address filter, "
+        "eth_getTransactionReceipt serves all logs of the transaction); the claims of the broadcast transaction, decoded in full, must be the "
+        "faithful translation of exactly the bank's lock/burn logs, each once, in order (each case costs the loop's 10 s sleep; 24 in parallel).  "
         "relaybatch: batches of 0-6 events (mixed lock/burn/other, one chain id and increasing nonces mostly, repeated nonces, "
         "malformed events at first/middle/last position, ASCII symbols) through the real handleEthereumEvent -> RelayToCosmos -> "
         "tx.BroadcastTx with an in-memory keyring and a recording stub node; claims decoded from the signed tx; non-trivial = "
